@@ -37,30 +37,30 @@ type Args struct {
 type OpKind int
 
 const (
-	KCtx3    OpKind = iota // c.Op(d,x,y)
-	KCtx2                  // c.Op(d,x)
-	KCtxQ                  // c.Quantize(d,x,n)
-	KCtxStr                // c.SetString(d,s) / c.NewFromString(s)
-	KRead1                 // read-only method on x
-	KRead2                 // read-only method on x,y
-	KDec2                  // d.Op(x)   (Decimal method writing d)
-	KDecSet                // d.SetXxx(n / s)
-	KModf                  // x.Modf(i,f)
-	KED3                   // ed.Op(d,x,y)
-	KED2                   // ed.Op(d,x)
-	KEDQ                   // ed.Quantize(d,x,n)
-	KEDI                   // ed.Int64(x)
-	KCtxNew                // c.WithPrecision(n)
+	KCtx3   OpKind = iota // c.Op(d,x,y)
+	KCtx2                 // c.Op(d,x)
+	KCtxQ                 // c.Quantize(d,x,n)
+	KCtxStr               // c.SetString(d,s) / c.NewFromString(s)
+	KRead1                // read-only method on x
+	KRead2                // read-only method on x,y
+	KDec2                 // d.Op(x)   (Decimal method writing d)
+	KDecSet               // d.SetXxx(n / s)
+	KModf                 // x.Modf(i,f)
+	KED3                  // ed.Op(d,x,y)
+	KED2                  // ed.Op(d,x)
+	KEDQ                  // ed.Quantize(d,x,n)
+	KEDI                  // ed.Int64(x)
+	KCtxNew               // c.WithPrecision(n)
 )
 
 type OpDef struct {
-	Name     string
-	Kind     OpKind
-	Single   bool // single-rounding operation in the sense of C03
-	Heavy    bool // transcendental: cost grows quickly with precision
-	WritesD  bool
-	Run      func(a *Args) Outcome
-	CtxName  string // for ErrDecimal wrappers: the Context method of the same name
+	Name    string
+	Kind    OpKind
+	Single  bool // single-rounding operation in the sense of C03
+	Heavy   bool // transcendental: cost grows quickly with precision
+	WritesD bool
+	Run     func(a *Args) Outcome
+	CtxName string // for ErrDecimal wrappers: the Context method of the same name
 }
 
 var Ops = map[string]*OpDef{}
@@ -218,6 +218,38 @@ func init() {
 		b, err := a.X.MarshalText()
 		v, err2 := a.X.Value()
 		return Outcome{Aux: fmt.Sprintf("%s|%v", b, v), Err: errText(err) + errText(err2)}
+	})
+	// read-only BigInt methods on the coefficients of (possibly shared) operands
+	reg("CoeffRead", KRead2, false, false, false, func(a *Args) Outcome {
+		x, y := &a.X.Coeff, &a.Y.Coeff
+		s := fmt.Sprint(x.Sign(), x.BitLen(), x.Cmp(y), x.CmpAbs(y), x.IsInt64(), x.IsUint64(), x.TrailingZeroBits(), x.Bit(0), x.Bit(int(uint64(a.N)%130)),
+			apd.NumDigits(x), x.String(), x.Text(16), string(x.Append(nil, 10)), fmt.Sprintf("%x", x.Bytes()), x.MathBigInt().String())
+		if x.IsInt64() {
+			s += fmt.Sprint(x.Int64())
+		}
+		if x.IsUint64() {
+			s += fmt.Sprint(x.Uint64())
+		}
+		return Outcome{Aux: s}
+	})
+	reg("NewWithBigInt", KDec2, false, false, true, func(a *Args) Outcome {
+		r := apd.NewWithBigInt(&a.X.Coeff, a.X.Exponent)
+		o := Outcome{Aux: DecVal(r)}
+		a.D.Set(r)
+		o.DVal = DecVal(a.D)
+		return o
+	})
+	reg("PkgNewFromString", KCtxStr, false, false, true, func(a *Args) Outcome {
+		r, res, err := apd.NewFromString(a.S)
+		o := Outcome{Cond: uint32(res), Err: errText(err), Aux: DecVal(r)}
+		if r != nil {
+			a.D.Set(r)
+		} else {
+			a.D.SetInt64(0)
+			a.D.Exponent = 0
+		}
+		o.DVal = DecVal(a.D)
+		return o
 	})
 	reg("Modf", KModf, false, false, true, func(a *Args) Outcome {
 		a.X.Modf(a.I, a.F)
